@@ -133,6 +133,7 @@ type VC struct {
 	notes       []string
 	funcName    string
 	curClause   string
+	recHeaps    map[string]string // when non-nil: records the heaps read (name -> sort)
 	sliceBack   map[string]*Loc // array-backed slices: arr term -> backing location
 }
 
@@ -263,6 +264,9 @@ func (o *Obligation) script(withModel bool) string {
 // ---------- heaps ----------
 
 func (vc *VC) heap(st *State, name, sort string) string {
+	if vc.recHeaps != nil {
+		vc.recHeaps[name] = sort
+	}
 	if t, ok := st.heaps[name]; ok {
 		return t
 	}
